@@ -113,6 +113,11 @@ def exc_name(e):
     return type(e).__name__
 
 
+class ShapeMismatch(Exception):
+    """Raised by oracle helpers when an observable does not have the shape the reference indexes it with (e.g. a content array that lost a
+    dimension).  The runner turns it into a failing obligation, so that the malformed result is replayed and reported like any other violation."""
+
+
 class Raised:
     """Observable standing for 'this step raised <name>'."""
 
